@@ -13,7 +13,7 @@ import os
 import re
 from fractions import Fraction as F
 
-from translator import elems as T_elems, gauss as T_gauss, pyexpr, C02_patches as T_patch
+from translator import elems as T_elems, gauss as T_gauss, pyexpr, C02_patches as T_patch, C02_beamaxis as T_axis
 from translator.pyexpr import TranslateError
 from vlib import common
 
@@ -55,6 +55,19 @@ elif check == "energy":
     print("u'Ku for a linear field", r["lin_energy"], "expected thickness*measure*density =", expect)
     bad = abs(r["lin_energy"] - expect) > 1e-9 * abs(expect)
 sys.exit(1 if bad else 0)
+'''
+
+
+REPLAY_AXIS = r'''
+import sys, numpy as np
+from EasyFEA import Mesher, Models
+from EasyFEA.Geoms import Domain, Point, Line
+section = Mesher().Mesh_2D(Domain(Point(-0.1, -0.2), Point(0.1, 0.2)))
+beam = Models.Beam.Isotropic(3, Line(Point(0, 0, 0), Point(*%(x)r)), section, 210.0, 0.3, yAxis=tuple(%(v)r))
+d = float(np.dot(beam.xAxis, beam.yAxis))
+P = np.asarray(beam._Calc_P())
+print("xAxis", beam.xAxis, "stored yAxis", beam.yAxis, "dot =", d, " |P'P - I| =", np.abs(P.T @ P - np.eye(3)).max())
+sys.exit(1 if abs(d) > 1e-12 else 0)
 '''
 
 
@@ -136,7 +149,7 @@ def run(ctx):
         "ranks are computed modulo the prime 2^31-1 (EFLib.ModRank, native ints): a lower bound of the rational rank (not formalised); the matching upper bound is the rigid-mode theorem (ndof - n_rigid) or the row count; shear rows are used without the factor 1/sqrt2 (non-zero row scaling, same kernel)",
         "'no spurious mode' is PROVED only on the generated two-element patches (reference-shaped and one distorted copy per type) and sampled by dense eigen-decomposition on the other generated meshes; symmetric/PSD/rigid-modes-in-kernel/mass-total are for all coordinates and all meshes (abstract assembly)",
         "mass positive definiteness: theorem x'Mx=0 <-> all N-samples vanish (weights>0, det J != 0) + modular rank nPe of the N-sample matrix; the step 'full column rank mod p => injective over R' is not formalised",
-        "beams: correspondence only (both theories, dim 1..3, SEG2..SEG5); C10 owns the beam operator model",
+        "beams: theorem only for the yAxis re-orthogonalisation (regenerated from the setter) and for congruence K = T'K_loc T (symmetric/PSD/kernel transport); that the rigid-body modes are the kernel is correspondence (axis-aligned and inclined beams, default and user non-perpendicular yAxis, both theories, K*rigid mode = 0 per mode, translational mass per direction); C10 owns the beam operator model",
     ]
     ok_static, log = ctx.ensure_static()
     if not ok_static:
@@ -156,6 +169,7 @@ def run(ctx):
         _, tree = T_lin._src(ctx.repo)
         lin_txt = ("(* GENERATED from EasyFEA/FEM/_linalg.py (Det, Inv closed forms) by translator/C12_linalg.py *)\n"
                    "From Coq Require Import List Arith ZArith QArith Reals.\nLocal Open Scope nat_scope.\n" + T_lin.emit_det_inv(T_lin.translate_det_inv(tree)))
+        axis = T_axis.read_yaxis(ctx.repo)
         p2 = [T_patch.two_element_patch(n, r) for n, r in E.items()]
         pD = [T_patch.distort(p, ctx.rng) for p in p2]
     except (TranslateError, SyntaxError, OSError, KeyError) as ex:
@@ -167,8 +181,9 @@ def run(ctx):
     W = lambda n, s: open(os.path.join(ctx.build, n), "w").write(s)
     W("Gen_Gauss.v", T_gauss.emit_coq(dump)); W("Gen_Elems.v", T_elems.emit_coq(E)); W("Gen_LinalgR.v", lin_txt)
     W("Gen_Patches.v", T_patch.emit_coq({"patches2": p2, "patchesD": pD}))
-    ctx.copy_props("C01/C01_tables.v", "C02/C02_kernel.v", "C02/C02_mass.v", "C02/C02_rank.v")
-    r0 = ctx.coq(["Gen_Gauss.v", "Gen_Elems.v", "Gen_LinalgR.v", "Gen_Patches.v"], timeout=300, count=False)
+    W("Gen_BeamAxis.v", T_axis.emit_coq(axis))
+    ctx.copy_props("C01/C01_tables.v", "C02/C02_kernel.v", "C02/C02_mass.v", "C02/C02_rank.v", "C02/C02_beam.v")
+    r0 = ctx.coq(["Gen_Gauss.v", "Gen_Elems.v", "Gen_LinalgR.v", "Gen_Patches.v", "Gen_BeamAxis.v"], timeout=300, count=False)
     if not r0.ok:
         ctx.obligation("generated files compile", False, r0.log[-1500:])
         ctx.violation("gen-compile", "generated Coq tables do not compile", {"log": r0.log[-3000:]}, found_input=False)
@@ -183,6 +198,21 @@ def run(ctx):
                           {"obligation": f, "log": r.log[-3000:]}, found_input=False)
             if f == "C01_tables.v":
                 break
+    rb = ctx.coq(["C02_beam.v"], timeout=300)
+    if not rb.ok:
+        # exact search: a rational fibre direction / user axis for which the stored axis is not orthogonal
+        found = False
+        for xv, vv in (([F(3, 5), F(4, 5), F(0)], [F(0), F(1), F(0)]), ([F(2, 3), F(1, 3), F(2, 3)], [F(1, 3), F(2, 3), F(2, 3)]),
+                       ([F(3, 5), F(4, 5), F(0)], [F(1, 3), F(2, 3), F(2, 3)])):
+            for bi, br in enumerate(axis["branches"]):
+                d = sum(pyexpr.ev(t, xv + vv + [F(1)] * axis["nscale"]) * x for t, x in zip(br, xv))
+                if d != 0 and not found:
+                    found = True
+                    ctx.violation("beam-yaxis-orthogonality", "_Beam.yAxis setter (branch %d, line %d): for fibre direction %s and yAxis value %s the stored vertical axis is not perpendicular to the fibre (un-normalised dot product %s): the local frame of inclined beams is not orthonormal" % (
+                        bi, axis["line"], [str(x) for x in xv], [str(x) for x in vv], d),
+                        {"replay_py": REPLAY_AXIS % dict(x=[float(5 * x) for x in xv], v=[float(x) for x in vv])}, True)
+        if not found:
+            ctx.violation("proof-broken:C02_beam.v", "C02_beam.v no longer checks; the exact search found no failing axis", {"obligation": "C02_beam.v", "log": rb.log[-3000:]}, found_input=False)
     factory = {(f["elem"], f["matrix"]): f for f in dump["factory"]}
     # ---------------- 3. computed deficiency lists ----------------
     kernel_dim = {}
@@ -381,7 +411,7 @@ def run(ctx):
         if lab == "ref2":
             meas = float(2 * REF_MEASURE[T_patch.family(n)])
         elif lab.startswith("gmsh"):
-            meas = c["L"] * (c["H"] if dim >= 2 else 1.0) * (c["D"] if dim == 3 else 1.0) * abs(np.linalg.det(np.array(c["A"])))
+            meas = float(c["L"] * (c["H"] if dim >= 2 else 1.0) * (c["D"] if dim == 3 else 1.0) * abs(np.linalg.det(np.array(c["A"]))))
         else:
             # distorted/curved patch: theorem C02_mass_total predicts rho * sum_p w_p|J_p| with the mass
             # rule (the exact measure of a curved element is not a polynomial integral of the rule)
@@ -418,6 +448,11 @@ def run(ctx):
             if not okp:
                 ctx.violation("simu-mass:" + tag, "%s: simu.mass = %r, expected %r" % (tag, r["mass_prop"], expM), {"case": c}, True)
     ctx.cov["case_kinds"] = dist
+    oplogs = [(c, r.get("ops_log") or []) for c, r in zip(cases, results) if c.get("ops")]
+    ctx.cov["interleaved_cases"] = len(oplogs)
+    ctx.cov["interleaved_cases_with_negative_detJ"] = sum(1 for c, l in oplogs if any(e[0] == "signed_jacobian_min" and e[1] < 0 for e in l))
+    ctx.cov["pre_assembly_point_location_max_error"] = max([e[1] for c, l in oplogs for e in l if e[0] == "evaluate_maxerr"] or [None], key=lambda v: -1 if v is None else v)
+    ctx.cov["pre_assembly_op_errors (not C02's predicate; see C08)"] = sorted(set("%s %s: %s" % (c["elem"], e[1], e[2][:80]) for c, l in oplogs for e in l if e[0] == "op-error"))[:10]
     ctx.cov["element_types"] = sorted(E)
     ctx.cov["kernel_dimension_from_coq"] = {"%s/%s/%s" % k: v for k, v in kernel_dim.items() if v != NRIGID[(k[0], E[k[2]]["dim"])]}
     ctx.sample({"two_element_patch": "TRI6", "coords": [[str(x) for x in nd] for nd in p2[[p["elem"] for p in p2].index("TRI6")]["coords"]],
